@@ -246,12 +246,13 @@ class CoroV:
 
 
 class StructV:
-    __slots__ = ("fmt", "items", "size")
+    __slots__ = ("fmt", "items", "size", "little")
 
-    def __init__(self, fmt, items, size):
+    def __init__(self, fmt, items, size, little=False):
         self.fmt = fmt
         self.items = items  # list of (code, width)
         self.size = size
+        self.little = little
 
 
 class BodyOf:
